@@ -10,7 +10,9 @@ EXPLANATION = (
     "every call (or closure/task creation) from which the call graph reaches the wire (PciSession::send_pci / "
     "PciSession::receive) must be dominated by the Ready edge of the poll of tokio Barrier::wait, and every normal "
     "return passes through that edge exactly once. Plus structural rules on run_internet (receiver before spawn, barrier "
-    "sized by the protocol counts, timeout wrapper). Decides the barrier sentence for all schedules; does not decide "
+    "sized by the protocol counts, timeout wrapper; the timed-out status comes either from one timer task that sleeps the "
+    "timeout and then requests TimedOut, or from the wait itself under tokio::time::timeout while run_internet keeps a "
+    "Shutdown handle alive; (I-FIRST) only the first shutdown request is broadcast). Decides the barrier sentence for all schedules; does not decide "
     "the numeric timing of the timeout nor which of several racing shutdown requests is first.")
 ASSUMPTIONS = [
     "user-supplied closures stored in fields (OnReceive callbacks, hooks) are not invoked before the barrier",
